@@ -1,7 +1,7 @@
 #!/bin/bash
 # regress.sh [parallel=2] : the whole sensitivity gate in one go (development aid).
 #   every seeded change   -> the quick check of its own property must report it
-#                            (S30, S37, S62 are CLI-only changes filed under C15: C14 must report them)
+#                            (S30, S37, S62, S72, S89 are CLI-only changes filed under C15: C14 must report them)
 #   every mutant          -> the quick check named in mutants/MAP, mutants/own/MAP must report it
 #   every benign change   -> all three quick checks must stay quiet
 # Works on scratch copies of /repo; takes 1-2 hours on 16 idle cores. Do not edit
@@ -15,7 +15,7 @@ for ((b=0;b<P;b++)); do
   ( for ((i=b;i<${#ids[@]};i+=P)); do tools/run_seeded.sh ${ids[$i]}; done > "$L/seeded.$b.log" 2>&1 ) &
 done
 wait
-for id in S30 S37 S62 S72; do
+for id in S30 S37 S62 S72 S89; do
   echo "$id C14 $(tools/try_seeded.sh "$PWD/seeded/$id/patch.diff" C14 2>&1 | grep -v WARNING | tail -1 | cut -c1-200)" >> "$L/seeded.cli.log"
 done
 cat mutants/MAP mutants/own/MAP > "$L/mut.map"
